@@ -409,7 +409,7 @@ func c10SegmentBases(l commitlog.CommitLog) (bases []int64) {
 // became committed (ascending).
 func (e *c10Env) fence(before *c10State) ([]c10Msg, error) {
 	l := e.p.log
-	if e.shape.CleanWaiting {
+	if e.shape.CleanWaiting && e.rng.Chance(1, 6) {
 		// retained messages above the HW (the tail) are never removed by
 		// Clean(), so what must be delivered after the fence does not change
 		if err := l.Clean(); err != nil {
